@@ -8,6 +8,86 @@ import re
 from . import halgen, halrun
 
 
+def _ans(out, k):
+    return out[k].split(" ", 1)[1] if k < len(out) and " " in out[k] else "missing"
+
+
+def core_two_fill(ctx, binp, quick):
+    """Core-level two-fill run (oracle-free): every core harness command hands the real code a result operand
+    pre-filled with garbage; the same request is executed from two different position-dependent fills
+    (`fill=A`, `fill=B`, see harness/src/fillpat.rs) and, where the command has one, from its historical constant
+    fill; the printed results must be identical.  In-place forms copy their operand into `res`, so the fill does
+    not apply to them and they run as controls."""
+    from . import c01, c02, c03, c04, c05
+    rng = ctx.rng.fork()
+    A, B = 0x5EED0001 + rng.below(1 << 20), 0xC0FFEE01 + rng.below(1 << 20)
+    jobs = []          # (command, [lines without id], label)
+    # ---- ops: programs of C02 (the destination of every overwriting step is refilled before the call)
+    progs = [c02.gen_program(rng, force=f) for f in (["linear", "rotate", "shift", "norm", "ggsw", "ggsw", "radixmix", None] * (40 if quick else 400))]
+    for be in c02.BACKENDS:
+        jobs.append(("ops", [f"be={be} fill={{fill}} {p['req']}" for p in progs], "ops/" + be))
+    # ---- ks family (keyswitch, automorphisms, trace, LWE conversions; GGSW forms; GGLWE / automorphism-key forms; packing)
+    def spread(cases, k):
+        """k cases taken evenly across the generator's list (it emits the operations family by family)"""
+        if len(cases) <= k:
+            return cases
+        return [cases[(i * len(cases)) // k] for i in range(k)]
+    ks_cases = (spread(c03.generate(ctx, rng.fork()), 200 if quick else 2000) + spread(c03.generate_ggsw(ctx, rng.fork()), 16 if quick else 120)
+                + spread(c03.generate_mat(ctx, rng.fork()), 24 if quick else 200) + spread(c03.generate_pack(ctx, rng.fork()), 12 if quick else 80))
+    lines = []
+    for ci, c in enumerate(ks_cases):
+        bes = c03.BACKENDS if c03.in_fft_domain(c) else c03.NTT
+        for be in ([bes[ci % len(bes)]] if quick else bes):
+            lines.append(c03.harness_line(0, c, be, ci % 2).split(" ", 1)[1] + " fill={fill}")
+    jobs.append(("ks", lines, "ks"))
+    # ---- external products, CMux, Cswap
+    ep_cases = [c04.gen_case(rng, i, quick) for i in range(240 if quick else 2400)]
+    jobs.append(("ep", [c04.req_line(c, i % 2) + " fill={fill}" for i, c in enumerate(ep_cases)], "ep"))
+    ex_cases = [c04.gen_expand(rng, i, quick) for i in range(24 if quick else 200)]
+    jobs.append(("expand", [c04.req_line(c) + " fill={fill}" for c in ex_cases], "expand"))
+    # ---- tensor / plaintext / constant products, relinearisation
+    mul_cases = [c05.gen_case(rng, i, quick) for i in range(240 if quick else 2400)]
+    jobs.append(("mul", [c05.req_line(c, i % 2) + " fill={fill}" for i, c in enumerate(mul_cases)], "mul"))
+    # ---- encryption / decryption
+    enc_cases = [c01.gen_case(rng, i) for i in range(400 if quick else 4000)]
+    jobs.append(("enc", [c01.harness_line(0, c).split(" ", 1)[1] + " fill={fill}" for c in enc_cases], "enc"))
+
+    stats = {}
+    for cmd, tmpl, label in jobs:
+        outs = []
+        for fill in (0, A, B):
+            ls = [f"{k} " + t.replace("{fill}", str(fill)) for k, t in enumerate(tmpl)]
+            rc, out, err = ctx.run_lines(binp, [cmd], ls, timeout=3000)
+            outs.append(out)
+        n_ok = n_panic = 0
+        for k, t in enumerate(tmpl):
+            a0, a1, a2 = _ans(outs[0], k), _ans(outs[1], k), _ans(outs[2], k)
+            ctx.count_case(("core-two-fill", label, a0.split(" ", 1)[0][:24], len(t) // 256))
+            if a0.startswith("panic") or a0.startswith("err") or a0 == "missing":
+                n_panic += 1
+            if a0 == a1 == a2:
+                n_ok += 1
+            else:
+                ctx.oracle_failures += 1
+                ctx.violation("core operation: result depends on the previous contents of the result operand",
+                              {"command": cmd, "request": t.replace("{fill}", "<fill>")[:3000], "fills": [0, A, B],
+                               "result_fill_0": a0[:1200], "result_fill_A": a1[:1200], "result_fill_B": a2[:1200],
+                               "rerun": f"printf '1 %s\\n' '<request with fill=..>' | harness/target/release/pvh {cmd}"}, True)
+                break
+        hist = {}
+        for t in tmpl:
+            if cmd == "ops":
+                for st in t.split(";")[1:]:
+                    w = st.split()
+                    if w and w[0] not in ("ct", "gg") and "=" not in w[0]:
+                        hist[w[0]] = hist.get(w[0], 0) + 1
+            else:
+                o = next((x[3:] for x in t.split() if x.startswith("op=")), None) or t.split()[0]
+                hist[o] = hist.get(o, 0) + 1
+        stats[label] = {"requests": len(tmpl), "identical_under_3_fills": n_ok, "non_ok_outcomes": n_panic, "ops": hist}
+    ctx.cov["core_two_fill"] = stats
+
+
 def run(ctx):
     quick = ctx.tier == "quick"
     ok, failures = ctx.proof_gate(["Poulpy.Props.C11"])
@@ -61,6 +141,12 @@ def run(ctx):
                                        "result_fill_1": a1[:1500], "result_fill_2": a2[:1500], "meta": m}, True)
                         break
             ctx.cov["two_fill_runs"] = ctx.cov.get("two_fill_runs", 0) + n2
+    # core level: two-fill run of every core harness command (ops, ks, ep, expand, mul, enc)
+    if binp is not None:
+        try:
+            core_two_fill(ctx, binp, quick)
+        except Exception as e:
+            broken.append(f"core two-fill sub-run crashed: {e!r}")
     # coefficient-domain operations (vec_znx_* and big twins): the C09 correspondence compares whole
     # buffers from garbage-filled outputs with hidden guard limbs and flags stray writes / operand
     # mutation; run it here as part of C11 (violations are reported under C11).
